@@ -1,5 +1,6 @@
 import Scion.Model.Trc
 import Scion.Proofs.Trc
+import Scion.Gen.Pki1Trc
 /-!
 # C33 — TRC payloads are validated (and encoded) faithfully
 
@@ -124,6 +125,20 @@ theorem validate_error_order (t : TRC) (e : Err) :
   unfold validate
   simp only [andThen_error_iff]
   grind
+
+/-- **T3.** The checks of `TRC.Validate`, `TRCID.Validate` and `validateASSequence` appear in the
+source in the order the model applies them (regenerated from `/repo` on every run), and the
+quorum / voter-count conditions are the modelled ones. -/
+theorem gen_validate_order :
+    Gen.Pki1Trc.validateSentinels =
+      ["ErrInvalidTRCVersion", "ErrInvalidID", "ErrGracePeriodNonZero", "ErrVotesOnBaseTRC",
+       "ErrInvalidQuorumSize", "ErrNotEnoughVoters", "ErrNotEnoughVoters", "ErrCertForOtherISD",
+       "ErrTRCValidityNotCovered", "ErrDuplicate"] ∧
+    Gen.Pki1Trc.idSentinels = ["ErrWildcardISD", "ErrSerialBeforeBase", "ErrReservedNumber"] ∧
+    Gen.Pki1Trc.asSeqSentinels = ["ErrNoASes", "ErrWildcardAS", "ErrDuplicateAS"] ∧
+    Gen.Pki1Trc.quorumCond = "trc.Quorum < 1 || trc.Quorum > 255" ∧
+    Gen.Pki1Trc.votersCond = "len(cl.Sensitive) < trc.Quorum" := by
+  refine ⟨by decide, by decide, by decide, by decide, by decide⟩
 
 /-! ### Non-vacuity: a concrete payload that meets every rule, and single-rule violations -/
 
